@@ -33,4 +33,4 @@ def generate_core(rng, tier):
 def generate(rng, tier):
     """the component-level cases, then the clause seen through the whole request/reply pipeline"""
     import pipeline, focus
-    return generate_core(rng, tier) + focus.never_sent_cases(rng, 200 if tier == 'thorough' else 12) + pipeline.guided_cases(rng, 300 if tier == 'thorough' else 20, pipeline.exchange_history, 'xchg')
+    return generate_core(rng, tier) + focus.dynext_cases(rng, 200 if tier == 'thorough' else 12) + focus.never_sent_cases(rng, 200 if tier == 'thorough' else 12) + pipeline.guided_cases(rng, 300 if tier == 'thorough' else 20, pipeline.exchange_history, 'xchg')
